@@ -85,6 +85,8 @@ pub struct Case {
     pub mem_target: u64,
     pub mem_w: u64,
     pub rip_override: Option<u64>, // RIP written through the register API after construction (C19: any RIP is a state)
+    pub drain: u8,       // unmatched RETs executed before the judged step (empties ax's diagnostic record of calls)
+    pub code_shift: u64, // the code area (and RIP, direct branch targets) lies this far above the standard layout (ax only)
 }
 
 pub struct Layout;
@@ -291,6 +293,8 @@ pub struct Gen {
     last_divisor: Option<u64>,
     pub iter_hint: usize,
     pub stack_edge: Option<u64>, // next stack-like case: put RSP here (edges of the stack area, read-only / unmapped memory)
+    pub next_drain: u8,
+    pub next_shift: u64,
 }
 
 struct MemPlan {
@@ -304,7 +308,7 @@ struct MemPlan {
 
 impl Gen {
     pub fn new(seed: u64) -> Self {
-        Gen { rng: StdRng::seed_from_u64(seed), next_id: 0, last_divisor: None, iter_hint: usize::MAX, stack_edge: None }
+        Gen { rng: StdRng::seed_from_u64(seed), next_id: 0, last_divisor: None, iter_hint: usize::MAX, stack_edge: None, next_drain: 0, next_shift: 0 }
     }
 
     fn pick<T: Copy>(&mut self, v: &[T]) -> T {
@@ -461,13 +465,20 @@ impl Gen {
     ) -> Option<Case> {
         let oc = code.op_code();
         let mut pre = self.random_pre();
+        let drain = std::mem::take(&mut self.next_drain);
+        let mut shift = std::mem::take(&mut self.next_shift);
+        if seg != Register::None || shape == MemShape::RipRel || asz32 {
+            shift = 0;
+        }
+        pre.rip += shift;
+        // segment bases: page-aligned ones and ones that are NOT 16-byte aligned (alignment is a property of the linear address)
         if seg == Register::FS {
             let rv = biased_u64(&mut self.rng) & 0x0000_3fff_ffff_f000;
-            pre.fs = self.pick(&[0x1000u64, 0x20_0000, rv]);
+            pre.fs = self.pick(&[0x1000u64, 0x20_0000, rv, 0x1008, rv | 0x8, 0x20_0004, rv | 0xff8]);
         }
         if seg == Register::GS {
             let rv = biased_u64(&mut self.rng) & 0x0000_3fff_ffff_f000;
-            pre.gs = self.pick(&[GSB, 0x1000u64, 0x20_0000, rv]);
+            pre.gs = self.pick(&[GSB, 0x1000u64, 0x20_0000, rv, GSB + 8, rv | 0x8, 0x1004, rv | 0xff8]);
         }
         #[derive(Clone)]
         enum O {
@@ -512,13 +523,19 @@ impl Gen {
                     let v = self.imm_for(k);
                     ops.push(O::I(v))
                 }
-                K::br64_1 | K::br64_4 => ops.push(O::Br(PADS[pad])),
+                K::br64_1 | K::br64_4 => ops.push(O::Br(PADS[pad] + shift)),
                 _ => {
                     let mut pool = regs_of_width(w);
                     if stack_like || family == "flow" {
                         pool.retain(|r| r.full_register() != Register::RSP);
                     }
-                    let r = self.pick(&pool);
+                    let mut r = self.pick(&pool);
+                    // both operands the same register (xor r,r / sub r,r / xchg r,r ...) in a fifth of the register-register cases
+                    if let Some(O::R(prev)) = ops.last() {
+                        if prev.size() == r.size() && pool.contains(prev) && self.rng.gen_bool(0.2) {
+                            r = *prev;
+                        }
+                    }
                     if let Some(ix) = gpr_index(r.full_register()) {
                         used_gprs.push(ix);
                     }
@@ -615,6 +632,13 @@ impl Gen {
         let mut target = 0u64;
         if let Some(p) = plan.as_mut() {
             target = self.target_for(place, mem_w.max(1));
+            if m == Mnemonic::Lea && family == "ea" && self.rng.gen_bool(0.5) {
+                // LEA accesses nothing: any effective address is a valid case (beyond 2^31 / 2^32, next to 2^64)
+                target = biased_u64(&mut self.rng);
+                if asz32 {
+                    target &= 0xffff_ffff;
+                }
+            }
             if rsp_operand {
                 target = STK + 0x400 + 8 * self.rng.gen_range(0..64u64);
             }
@@ -640,6 +664,9 @@ impl Gen {
         }
         self.memory_special(m, code, &mut pre, target, mem_w, has_mem);
         // code image: instruction bytes, fall-through stub, landing pads
+        if drain > 0 {
+            pre.ov.push((CODE + shift + 0x10, vec![0xc3]));
+        }
         pre.ov.push((pre.rip, bytes.clone()));
         pre.ov.push((pre.rip + bytes.len() as u64, crate::native::pad_stub(1)));
         for (k, p) in PADS.iter().enumerate() {
@@ -682,7 +709,7 @@ impl Gen {
         let uses_fs = seg == Register::FS && has_mem;
         let uses_gs = seg == Register::GS && has_mem;
         let touches_xmm = (0..oc.op_count()).any(|i| matches!(oc.op_kind(i), K::xmm_or_mem | K::xmm_reg | K::xmm_rm));
-        let native_ok = !uses_fs && !matches!(m, Mnemonic::Syscall | Mnemonic::Int | Mnemonic::Int1 | Mnemonic::Int3)
+        let native_ok = shift == 0 && drain == 0 && !uses_fs && !matches!(m, Mnemonic::Syscall | Mnemonic::Int | Mnemonic::Int1 | Mnemonic::Int3)
             && !(uses_gs && pre.gs >= 0x0000_8000_0000_0000);
         let id = self.next_id;
         self.next_id += 1;
@@ -693,7 +720,7 @@ impl Gen {
             "reg".to_string()
         };
         let _ = used_gprs;
-        Some(Case { id, family: family.to_string(), shape: shape_name, instr, bytes, pre, native_ok, uses_gs, touches_xmm, mem_target: target, mem_w, rip_override: None })
+        Some(Case { id, family: family.to_string(), shape: shape_name, instr, bytes, pre, native_ok, uses_gs, touches_xmm, mem_target: target, mem_w, rip_override: None, drain, code_shift: shift })
     }
 
     fn prepare_special(&mut self, m: Mnemonic, code: Code, pre: &mut Pre, _is_mem: &[bool]) {
@@ -910,14 +937,24 @@ impl Gen {
 // ---- running a case on ax ------------------------------------------------------------------------------------------
 pub fn run_ax(c: &Case, lay: &Layout) -> Post {
     let r = catch_unwind(AssertUnwindSafe(|| -> Result<Post, String> {
-        let code_img = lay.image(&AREAS[0], c);
-        let mut ax = Axecutor::new(&code_img, CODE, c.pre.rip).map_err(|e| format!("setup: {e}"))?;
-        let mut images = vec![code_img];
+        let code_area = Area { name: "CODE", start: CODE + c.code_shift, len: 0x1000, prot: 5 };
+        let code_img = lay.image(&code_area, c);
+        let mut ax = Axecutor::new(&code_img, CODE + c.code_shift, c.pre.rip).map_err(|e| format!("setup: {e}"))?;
+        let mut images = vec![(CODE + c.code_shift, code_img)];
         for a in AREAS.iter().skip(1) {
             let img = lay.image(a, c);
             ax.mem_init_area(a.start, img.clone()).map_err(|e| format!("setup: {e}"))?;
             ax.mem_prot(a.start, a.prot).map_err(|e| format!("setup: {e}"))?;
-            images.push(img);
+            images.push((a.start, img));
+        }
+        // unmatched RETs before the judged step: ax keeps a diagnostic record of calls next to the real stack; the record
+        // must never influence what an instruction does (the registers the RETs move are written afterwards anyway)
+        for _ in 0..c.drain {
+            let rip = ax_x86::state::registers::SupportedRegister::RIP;
+            ax.reg_write_64(rip, CODE + c.code_shift + 0x10).map_err(|e| format!("setup: {e}"))?;
+            ax.reg_write_64(crate::interp::reg_by_name("RSP").unwrap(), STK + 0x800).map_err(|e| format!("setup: {e}"))?;
+            let _ = catch_unwind(AssertUnwindSafe(|| async_std::task::block_on(ax.step())));
+            ax.reg_write_64(rip, c.pre.rip).map_err(|e| format!("setup: {e}"))?;
         }
         for (i, name) in crate::interp::GPRS.iter().take(16).enumerate() {
             ax.reg_write_64(crate::interp::reg_by_name(name).unwrap(), c.pre.regs[i]).map_err(|e| format!("setup: {e}"))?;
@@ -956,8 +993,8 @@ pub fn run_ax(c: &Case, lay: &Layout) -> Post {
         let mut mem = Vec::new();
         let meta = ax.verif_area_meta();
         for (idx, (start, _len, _prot, _dlen, _name)) in meta.iter().enumerate() {
-            if let Some(k) = AREAS.iter().position(|a| a.start == *start) {
-                diff_runs(*start, &images[k], ax.verif_area_data(idx), &mut mem);
+            if let Some(k) = images.iter().position(|(a, _)| a == start) {
+                diff_runs(*start, &images[k].1, ax.verif_area_data(idx), &mut mem);
             } else {
                 mem.push((*start, vec![0xEE]));
             }
@@ -1146,7 +1183,7 @@ fn operand_values(c: &Case) -> Vec<Value> {
             }
             OpKind::Memory => {
                 let mut val = 0u64;
-                if let Some(a) = AREAS.iter().find(|a| c.mem_target >= a.start && c.mem_target + c.mem_w.min(8) <= a.start + a.len) {
+                if let Some(a) = AREAS.iter().find(|a| c.mem_target >= a.start && c.mem_target.checked_add(c.mem_w.min(8)).map_or(false, |e| e <= a.start + a.len)) {
                     let img = lay.image(a, c);
                     for j in 0..c.mem_w.min(8) {
                         val |= (img[(c.mem_target - a.start + j) as usize] as u64) << (8 * j);
@@ -1195,7 +1232,8 @@ pub fn gen_family(g: &mut Gen, family: &str, per_form: usize, forms: &std::colle
             "data" => cls == "data",
             "flow" => cls == "flow",
             "stack" => cls == "stack" || matches!(m, Mnemonic::Call | Mnemonic::Ret),
-            "ea" => matches!(m, Mnemonic::Lea | Mnemonic::Mov | Mnemonic::Movzx | Mnemonic::Add | Mnemonic::Movups) && has_mem,
+            "ea" => matches!(m, Mnemonic::Lea | Mnemonic::Mov | Mnemonic::Movzx | Mnemonic::Add | Mnemonic::Movups | Mnemonic::Inc | Mnemonic::Neg
+                             | Mnemonic::Not | Mnemonic::Dec) && has_mem,
             "fault" => matches!(m, Mnemonic::Div | Mnemonic::Idiv | Mnemonic::Xorps | Mnemonic::Movups) || (has_mem && cls == "data"),
             _ => false,
         };
@@ -1223,6 +1261,13 @@ pub fn gen_family(g: &mut Gen, family: &str, per_form: usize, forms: &std::colle
                             _ => STK + 0x1000 - 8 * g.rng.gen_range(0..3u64),
                         });
                     }
+                    if family != "data" && g.rng.gen_bool(0.25) {
+                        g.next_drain = 2 + (g.rng.gen_range(0..4) == 0) as u8;
+                    }
+                    if g.rng.gen_bool(0.15) {
+                        // code far above 4 GiB: next-RIP, direct branch targets and return addresses are 64-bit quantities
+                        g.next_shift = [1u64 << 32, 1 << 33, 0x7ffe_0000_0000][g.rng.gen_range(0..3)];
+                    }
                     let use_mem = has_mem && (!has_reg || n % 2 == 1);
                     let shape = MEM_SHAPES[g.rng.gen_range(0..MEM_SHAPES.len())];
                     let seg = if g.rng.gen_bool(0.06) { Register::GS } else if g.rng.gen_bool(0.03) { Register::FS } else { Register::None };
@@ -1241,7 +1286,10 @@ pub fn gen_family(g: &mut Gen, family: &str, per_form: usize, forms: &std::colle
                 "fault" => {
                     let place = [Place::Rw, Place::Ro, Place::Hole, Place::Straddle, Place::LastFit, Place::Null, Place::Misalign][n % 7];
                     let shape = [MemShape::Base, MemShape::BaseDisp8, MemShape::BaseIndex, MemShape::Abs32][g.rng.gen_range(0..4)];
-                    if let Some(c) = g.make(code, family, has_mem, shape, place, false, Register::None, pad) {
+                    // alignment-checked 128-bit operands also behind FS / GS bases that are not 16-byte aligned
+                    let wide = (0..code.op_code().op_count()).any(|i| code.op_code().op_kind(i) == K::xmm_or_mem);
+                    let seg = if wide && has_mem && g.rng.gen_bool(0.5) { if g.rng.gen_bool(0.6) { Register::GS } else { Register::FS } } else { Register::None };
+                    if let Some(c) = g.make(code, family, has_mem, shape, place, false, seg, pad) {
                         out.push(c);
                     }
                 }
